@@ -55,6 +55,7 @@ PROPS = {
             "C08_vm_params_are_locals": [],
             "C08_param_binding": [],
             "C08_call_executes_designated_body": [],
+            "C08_call_card_emits_pair": [],
             "C08_example_call_binding": [],
             "C08_example_call_nil": [],
             "C08_example_call_surplus": [],
@@ -114,8 +115,9 @@ PROPS = {
             "C08_param_binding (declared parameter m = local n-1-m = the (m+1)-th supplied value from the end), "
             "C08_call_executes_designated_body (an adjacent FunctionPointer; CallFunction pair of a compiled module continues at the "
             "first byte of the code of the function spec_resolve designates; non-main targets, label_keys_distinct_module)",
-            "not proved of the run-time half: that every Call card is compiled into an ADJACENT FunctionPointer; CallFunction pair "
-            "(C08_call_resolves has the pair adjacent in the call skeleton only); that the innermost locals list is empty where a "
+            "not proved of the run-time half: that the FunctionPointer; CallFunction pair a Call card appends (C08_call_card_emits_pair) "
+            "is still adjacent in the returned program (later emission only prepends and patches jump operands, but this is proved "
+            "only for the call skeleton: C08_call_resolves); that the innermost locals list is empty where a "
             "function body starts (hypothesis of C08_param_binding's compiler side); that the callee's body keeps the caller's part of "
             "the stack intact up to its Return (frame discipline of compiled code, the same gap as C18_reentry_balanced_partial)",
             "a call with fewer arguments than parameters is not an error unless the whole value stack is shorter than the arity: the "
